@@ -45,6 +45,25 @@ def run(ck):
                        'unsigned arithmetic is modelled over the integers; wrap-around is covered only by rule C18.e']
     u = cast.load(UNIT)
     ck.unit(UNIT)
+    # static initialisers: the buffers most of the library is handed are never passed through byte_buffer_set; the macros
+    # must establish the same state (full buffer: used = size; empty buffer: used = 0; offset 0; explicit form as given)
+    try:
+        pu = cast.load(UNIT, source_text='#include <ufw/byte-buffer.h>\nstatic unsigned char vp_m[7];\nstatic ByteBuffer vp_arr[3];\n'
+                                         'ByteBuffer vp_full = BYTE_BUFFER(vp_m, 7u);\nByteBuffer vp_empty = BYTE_BUFFER_EMPTY(vp_m, 7u);\n'
+                                         'ByteBuffer vp_init = BYTE_BUFFER_INIT(vp_m, 7u, 5u, 2u);\nByteChunks vp_chunks = BYTE_CHUNKS(vp_arr);\n')
+        want = {'vp_full': ('BYTE_BUFFER', {'data': ('ref', 'vp_m'), 'size': 7, 'used': 7, 'offset': 0}),
+                'vp_empty': ('BYTE_BUFFER_EMPTY', {'data': ('ref', 'vp_m'), 'size': 7, 'used': 0, 'offset': 0}),
+                'vp_init': ('BYTE_BUFFER_INIT', {'data': ('ref', 'vp_m'), 'size': 7, 'used': 5, 'offset': 2}),
+                'vp_chunks': ('BYTE_CHUNKS', {'chunks': 3, 'active': 0, 'chunk': ('ref', 'vp_arr')})}
+        for var, (macro, w) in sorted(want.items()):
+            f = cast.init_fields(pu, var)
+            # (the element count of BYTE_CHUNKS is a sizeof quotient the AST walker does not fold: presence is all that is checked)
+            ok = f is not None and all(f.get(k) == v or (k == 'chunks' and k in f and f[k] is None) for k, v in w.items())
+            ck.verdict(ok, 'C18.a', 'macro:' + macro, 'include/ufw/byte-buffer.h',
+                       '%s(...) yields %s' % (macro, ', '.join('%s=%s' % (k, v if not isinstance(v, tuple) else v[1]) for k, v in w.items())) if ok else
+                       '%s(mem[7]%s) yields %s, expected %s' % (macro, ', 7' if macro != 'BYTE_CHUNKS' else '', f, w))
+    except Exception as e:
+        ck.broken('C18.a', 'macros', 'include/ufw/byte-buffer.h', 'probe failed: %s' % str(e)[:200])
     eng = sym.Engine(u, sizeof=sym.unit_sizeofs(UNIT, u))
     names = [n for n in u.functions_in_file('byte-buffer.c') if n.startswith('byte_buffer_')]
     ck.floor('C18.c', 'byte_buffer_* functions', len(names), 13)
